@@ -88,7 +88,8 @@ theorem C08_sigquit_callback_retries (rec : Rec) (n : String) : runReady1 rec (.
 /-! ### 2. `stopping` is set by an accepted quit; what can clear it -/
 
 /-- every write the model makes to the arbiter record keeps `stopping` set — except the one of the failed arbiter
-    restart (`clearRestarting`, fix 273f512), which is not in this list -/
+    restart (`clearRestarting was`, fix 273f512 as refined: it restores the value `was` found on entry), which is not
+    in this list -/
 theorem stopping_kept_by_writes (a : Arbiter) (h : a.stopping = true) :
     { a with stopping := true }.stopping = true ∧ { a with restarting := true, stopping := true }.stopping = true ∧
     (∀ b, { a with loopStop := b }.stopping = true) ∧ (∀ b, { a with socketEvent := b }.stopping = true) ∧
@@ -97,11 +98,11 @@ theorem stopping_kept_by_writes (a : Arbiter) (h : a.stopping = true) :
   ⟨rfl, rfl, fun _ => h, fun _ => h, fun _ => h, fun _ _ => h, fun _ => h, h⟩
 
 theorem restartingStoppingStable : ArbStable (fun a => a.restarting = true → a.stopping = true) :=
-  ⟨⟨fun _ _ _ => rfl, fun _ _ _ => rfl, fun _ _ h => by simp at h, fun _ _ h => h, fun _ _ h => h, fun _ _ h => h,
+  ⟨⟨fun _ _ _ => rfl, fun _ _ _ => rfl, fun _ _ _ h => by simp at h, fun _ _ h => h, fun _ _ h => h, fun _ _ h => h,
     fun _ _ _ h => h, fun _ _ h => h⟩, fun _ h => h⟩
 
 /-- **while the arbiter is restarting it is stopping**: `_restarting` is never set without `_stopping`, along every
-    run — `Arbiter.restart` sets both, and since fix 273f512 its failure path clears both. -/
+    run — `Arbiter.restart` sets both, and its failure path (fix 273f512) clears `_restarting` whatever it does to `_stopping`. -/
 theorem C08_restarting_implies_stopping (s : State) (ops : List Op) (h : s.a.restarting = true → s.a.stopping = true) :
     (run s ops).a.restarting = true → (run s ops).a.stopping = true :=
   run_pres (Spec.ofLeafX (arbPLeafX _ restartingStoppingStable)) s ops h
@@ -109,43 +110,64 @@ theorem C08_restarting_implies_stopping (s : State) (ops : List Op) (h : s.a.res
 example : (initState [{ name := "a" }] [{}] 0).a.restarting = true → (initState [{ name := "a" }] [{}] 0).a.stopping = true := by
   decide +kernel
 
-/- FULL STATEMENT (no longer true of the code since fix 273f512, was `C08_stopping_is_forever`):
+/- FULL STATEMENT (was `C08_stopping_is_forever`, proved until fix 273f512 from "no write clears `stopping`"):
      ∀ (s : State) (ops : List Op), s.a.stopping = true → (run s ops).a.stopping = true
-   Since 273f512 the `except Exception:` of `Arbiter.restart(inside_circusd=True)` sets `_stopping = False` (and
-   `_restarting = False`) when the stop of the watchers fails — also when `_stopping` had been set earlier by a `quit`
-   whose own stop had failed (`util.synchronized` accepts a `restart` while `_stopping` is set and the slot is free).
-   What is proved: -/
+   With the refinement of 273f512 (`was_stopping = self._stopping` read before `_stopping = True`, restored by the
+   `except`) a flag set by a shutdown is no longer cleared by a failed arbiter restart (`C08_failed_restart_keeps_shutdown_flag`,
+   `C08_restart_restores_the_flag_it_found`).  The statement over ALL states is still not literally true: in a state
+   taken while an arbiter restart of a daemon that was not shutting down is in flight, `stopping` is set (by the restart
+   itself, `was_stopping = False`) and the failure of that restart clears it again — by design.  True, and not proved:
+   "`stopping = true ∧ restarting = false` is for ever along every run from a reachable state"; it needs the invariant
+   that a `restartInsideAfterStop was` continuation is pending only while `restarting` is set, and that `was = true`
+   whenever the flag was set on entry, over the heap of suspended coroutines (the generic preservation framework
+   quantifies over every frame that could be pushed and cannot express it).  What is proved: -/
 /-- a watcher whose worker the daemon may not signal, started -/
 def c08fS : State := run (initState [{ name := "alpha" }] [{ eperm := true }] 0) [.start, .wake, .wake]
 def c08fReq (cmd : String) : Op := .req "c" (some (.obj [("command", .str cmd), ("id", .str "q"), ("properties", .obj [])]))
 
-/-- **counter-example to "`stopping` is for ever" (consequence of fix 273f512, by evaluation)**: a `quit` that fails (the
-    worker cannot be signalled) leaves `_stopping` set with the slot free; a `restart` of the arbiter is then accepted,
-    fails for the same reason, and its `except` clears `_stopping`: the flag set by the quit is gone. -/
-theorem C08_counterexample_stopping_cleared_by_failed_restart :
+/-- **a failed arbiter restart does not undo a shutdown (the former counter-example, evaluated on the refined fix)**: a
+    `quit` that fails (the worker cannot be signalled) leaves `_stopping` set with the slot free; a `restart` of the
+    arbiter is then accepted, fails for the same reason, and its `except` restores the `_stopping` it found — set:
+    the daemon is still shutting down, `_restarting` is clear; whereas the same failed restart of a daemon that was
+    not shutting down leaves both flags clear. -/
+theorem C08_failed_restart_keeps_shutdown_flag :
     (run c08fS [c08fReq "quit"]).a.stopping = true ∧ (run c08fS [c08fReq "quit"]).a.slot = none ∧
-    (run c08fS [c08fReq "quit", c08fReq "restart"]).a.stopping = false ∧
-    (run c08fS [c08fReq "quit", c08fReq "restart"]).a.restarting = false := by
+    (run c08fS [c08fReq "quit", c08fReq "restart"]).a.stopping = true ∧
+    (run c08fS [c08fReq "quit", c08fReq "restart"]).a.restarting = false ∧
+    (run c08fS [c08fReq "restart"]).a.stopping = false ∧ (run c08fS [c08fReq "restart"]).a.restarting = false := by
   decide +kernel
 
-/-- **`stopping` is cleared by one statement only** (partial: the run-level statement "once set by a quit it stays
-    set unless an arbiter restart fails afterwards" needs the invariant that a `restartInsideAfterStop` frame exists
-    only while the slot is held by `arbiter_restart`, which is not proved): the only definition of the model that
-    writes `stopping := false` is `clearRestarting`, and the only place that runs it is the continuation of
-    `Arbiter.restart(inside_circusd=True)` when the stop of the watchers ended with an exception; every other
-    continuation, on every value, and every other write to the arbiter record (`stopping_kept_by_writes`) leaves the
-    flag alone; `manage_watchers` and a signal-initiated reload do nothing while it is set. -/
+/-- **`Arbiter.restart` restores the flag it found**: the restart reads `_stopping` before it sets it and hands the value
+    to the continuation that waits for the stop of the watchers (`restartInsideAfterStop was`); when that stop ends
+    with an exception — any exception, any state — the continuation sets `_restarting = False`, `_stopping = was` and
+    lets the exception go on; in particular a restart entered with the flag set (`was = true`) leaves it set. -/
+theorem C08_restart_restores_the_flag_it_found (rec : Rec) (wt : Waiter) (s : State) (was : Bool) (e : Exc) :
+    arbRestartInside rec wt s =
+      await rec (.arbStopWatchers (iterWatchers false (setRestarting s).2).1 true) (.restartInsideAfterStop s.a.stopping) wt
+        (iterWatchers false (setRestarting s).2).2 ∧
+    runResume rec (.restartInsideAfterStop was) (.exc e) wt s =
+      deliver rec wt (.exc e) { s with a := { s.a with restarting := false, stopping := was } } ∧
+    (runResume rec (.restartInsideAfterStop true) (.exc e) wt s =
+      deliver rec wt (.exc e) { s with a := { s.a with restarting := false, stopping := true } }) :=
+  ⟨rfl, rfl, rfl⟩
+
+/-- **`stopping` is cleared by one statement only** (partial, see the comment above for the run-level statement that is
+    missing): the only definition of the model that can write `stopping := false` is `clearRestarting was`, and the only
+    place that runs it is the continuation of `Arbiter.restart(inside_circusd=True)` when the stop of the watchers ended
+    with an exception — with the value found on entry; every other continuation, on every value, and every other write
+    to the arbiter record (`stopping_kept_by_writes`) leaves the flag alone; `manage_watchers` and a signal-initiated
+    reload do nothing while it is set. -/
 theorem C08_stopping_is_forever_partial (rec : Rec) (wt : Waiter) (s : State) :
-    (∀ e, runResume rec .restartInsideAfterStop (.exc e) wt s =
-        deliver rec wt (.exc e) { s with a := { s.a with restarting := false, stopping := false } }) ∧
-    (∀ v, (∀ e, v ≠ .exc e) → runResume rec .restartInsideAfterStop v wt s = arbStopTail rec wt s) ∧
-    (∀ k e, k ≠ .restartInsideAfterStop → k ≠ .pass → (∀ n r, k ≠ .multi n r) → (∀ f i, k ≠ .multiSlot f i) →
+    (∀ was e, runResume rec (.restartInsideAfterStop was) (.exc e) wt s =
+        deliver rec wt (.exc e) { s with a := { s.a with restarting := false, stopping := was } }) ∧
+    (∀ was v, (∀ e, v ≠ .exc e) → runResume rec (.restartInsideAfterStop was) v wt s = arbStopTail rec wt s) ∧
+    (∀ k e, (∀ was, k ≠ .restartInsideAfterStop was) → k ≠ .pass → (∀ n r, k ≠ .multi n r) → (∀ f i, k ≠ .multiSlot f i) →
         runResume rec k (.exc e) wt s = deliver rec wt (.exc e) s) := by
-  refine ⟨fun _ => rfl, ?_, ?_⟩
-  · intro v hv
+  refine ⟨fun _ _ => rfl, ?_, ?_⟩
+  · intro was v hv
     cases v <;> first | rfl | exact absurd rfl (hv _)
   · intro k e h1 h2 h3 h4
-    cases k <;> first | rfl | exact absurd rfl h1 | exact absurd rfl h2 | exact absurd rfl (h3 _ _) | exact absurd rfl (h4 _ _)
+    cases k <;> first | rfl | exact absurd rfl (h1 _) | exact absurd rfl h2 | exact absurd rfl (h3 _ _) | exact absurd rfl (h4 _ _)
 
 theorem ve_quit (props : JVal) : validateExecute "quit" props = (do
     let t ← syncCoroutine "arbiter_stop" .arbStop []
@@ -173,7 +195,7 @@ theorem quit_accepted (props : JVal) (s : State) (h1 : s.a.slot = none) (h2 : s.
     gets a future, and the state in which `Arbiter.stop` starts to stop the watchers (its one `yield`, over the
     watchers `ws` in stop order) has `stopping` set.  Partial: that the flag is still set when `validateExecute`
     returns needs, since fix 273f512, the invariant that no frame of a failed-restart handler
-    (`restartInsideAfterStop`) can be resumed while the slot is free (`C08_stopping_is_forever_partial`); at run level
+    (`restartInsideAfterStop false`) can be resumed while the slot is free (`C08_stopping_is_forever_partial`); at run level
     `C08_quit_terminates_stubborn` / `C08_quit_terminates_obedient` (Props/C08Run.lean) do have `stopping` set at the end. -/
 theorem C08_quit_sets_stopping_partial (props : JVal) (s : State) (h1 : s.a.slot = none) (h2 : s.a.restarting = false)
     (hb : s.blocked = false) :
@@ -360,7 +382,7 @@ theorem C08_close_is_idempotent (s : State) (h1 : s.a.ctlClosed = true) (h2 : s.
     simp_all
 
 theorem closedStable : ArbStable (fun a => a.ctlClosed = true ∧ a.pubClosed = true) :=
-  ⟨⟨fun _ h => h, fun _ h => h, fun _ h => h, fun _ _ h => h, fun _ _ h => h, fun _ _ h => h, fun _ _ _ h => h, fun _ _ h => h⟩, fun _ _ => ⟨rfl, rfl⟩⟩
+  ⟨⟨fun _ h => h, fun _ h => h, fun _ _ h => h, fun _ _ h => h, fun _ _ h => h, fun _ _ h => h, fun _ _ _ h => h, fun _ _ h => h⟩, fun _ _ => ⟨rfl, rfl⟩⟩
 
 /-- **closed is for ever**: once the control and PUB sockets are closed they stay closed along every
     continuation of the run. -/
